@@ -87,6 +87,7 @@ type Atom struct {
 	Kind string
 	A, B *regexp.Regexp
 	Pol  bool
+	rawA, rawB string // the globs as written (to recognise constant operands)
 	Req  [][]Atom // conjunction-by-dominance: the testing block must itself pass each of these disjunctions
 	// ForAll: Kind == "forall": the normal exit of a range loop over a slice whose term matches A, in which every
 	// full iteration passes one of Inner.
@@ -130,10 +131,14 @@ func Glob(g string) *regexp.Regexp {
 func Exact(s string) string { return strings.ReplaceAll(s, "*", `\*`) }
 
 // Eq: a == b holds on the pass edge (symmetric).
-func Eq(a, b string) Atom { return Atom{Desc: a + " == " + b, Kind: "eq", A: Glob(a), B: Glob(b), Pol: true} }
+func Eq(a, b string) Atom {
+	return Atom{Desc: a + " == " + b, Kind: "eq", A: Glob(a), B: Glob(b), Pol: true, rawA: a, rawB: b}
+}
 
 // Ne: a != b holds on the pass edge.
-func Ne(a, b string) Atom { return Atom{Desc: a + " != " + b, Kind: "eq", A: Glob(a), B: Glob(b), Pol: false} }
+func Ne(a, b string) Atom {
+	return Atom{Desc: a + " != " + b, Kind: "eq", A: Glob(a), B: Glob(b), Pol: false, rawA: a, rawB: b}
+}
 
 // Lt: a < b holds; Ge: !(a < b).
 func Lt(a, b string) Atom { return Atom{Desc: a + " < " + b, Kind: "lt", A: Glob(a), B: Glob(b), Pol: true} }
@@ -145,6 +150,15 @@ func False(a string) Atom { return Atom{Desc: "!" + a, Kind: "bool", A: Glob(a),
 
 // matches reports whether pred with the given truth value satisfies the atom.
 func (a Atom) matches(p Pred, truth bool) bool {
+	// X == c1 (holding) establishes X != c2 for a different constant c2
+	if a.Kind == "eq" && p.Kind == "eq" && !a.Pol && truth && isConstTerm(a.rawB) {
+		if isConstTerm(p.B) && p.B != a.rawB && a.A.MatchString(p.A) {
+			return true
+		}
+		if isConstTerm(p.A) && p.A != a.rawB && a.A.MatchString(p.B) {
+			return true
+		}
+	}
 	if a.Kind != p.Kind || truth != a.Pol {
 		return false
 	}
@@ -169,6 +183,7 @@ type Checker struct {
 	through *ssa.BasicBlock
 	avoidB  map[*ssa.BasicBlock]bool
 	targets map[*ssa.BasicBlock]bool
+	phiDepth int // recursion bound for φ-valued conditions
 }
 
 // MaxHelperDepth bounds helper summarisation (quick 2 / thorough 4, set by the driver).
@@ -344,7 +359,7 @@ func (c *Checker) helperImplies(call *ssa.Call, isErr bool, want bool, atoms []A
 			isNil := isC && k.Value == nil
 			if want { // want nil error
 				if !isNil {
-					if isC {
+					if isC || DefinitelyNonNil(res, 0) {
 						continue
 					}
 					// a computed error: may be nil — must also be covered
@@ -388,6 +403,18 @@ func (c *Checker) directCut(atoms []Atom) map[cfgx.Edge]bool {
 				cut[cfgx.Edge{From: b, To: b.Succs[1]}] = true
 			}
 		}
+		// a materialised `A && B` / `A || B` (switch-case expressions, boolean locals): the condition is a φ whose
+		// incoming values are constants and computed comparisons
+		if pv, ppol0 := stripNot(iff.Cond); pv != nil {
+			if phi, isPhi := pv.(*ssa.Phi); isPhi && isBool(phi) && c.phiDepth < 1 && len(atoms) > 0 {
+				if c.phiImplies(phi, ppol0, atoms) {
+					cut[cfgx.Edge{From: b, To: b.Succs[0]}] = true
+				}
+				if c.phiImplies(phi, !ppol0, atoms) {
+					cut[cfgx.Edge{From: b, To: b.Succs[1]}] = true
+				}
+			}
+		}
 		p, ppol, ok := c.pred(iff.Cond)
 		if !ok {
 			continue
@@ -414,6 +441,42 @@ func (c *Checker) directCut(atoms []Atom) map[cfgx.Edge]bool {
 		}
 	}
 	return cut
+}
+
+// phiImplies: does the boolean φ having the value `want` imply one of the atoms? Every incoming value that can be
+// `want` must either be a comparison that matches an atom at that polarity, or arrive from a block that is itself
+// reached only through the atoms (the `A` of `A && B`, decided by the branch that leads to the evaluation of B).
+func (c *Checker) phiImplies(phi *ssa.Phi, want bool, atoms []Atom) bool {
+	n := 0
+	for i, e := range phi.Edges {
+		if k, ok := e.(*ssa.Const); ok && k.Value != nil && k.Value.Kind() == constant.Bool {
+			if constant.BoolVal(k.Value) != want {
+				continue // this edge cannot produce `want`
+			}
+		}
+		n++
+		covered := false
+		if _, isConst := e.(*ssa.Const); !isConst {
+			if p, pol, ok := c.pred(e); ok {
+				for _, a := range atoms {
+					if len(a.Req) == 0 && a.matches(p, pol == want) {
+						covered = true
+					}
+				}
+			}
+		}
+		if !covered && i < len(phi.Block().Preds) {
+			sub := *c
+			sub.phiDepth = c.phiDepth + 1
+			if ok, _ := sub.MustPass(phi.Block().Preds[i], atoms); ok {
+				covered = true
+			}
+		}
+		if !covered {
+			return false
+		}
+	}
+	return n > 0
 }
 
 // forallEdges: exit edges of range loops over a slice matching a.A in which every iteration passes a.Inner.
@@ -973,3 +1036,39 @@ func copyMap(m map[string]string) map[string]string {
 }
 
 func sortStrings(xs []string) { sort.Strings(xs) }
+
+// DefinitelyNonNil: an error value that cannot be nil (errors.New/fmt.Errorf/status.Error(f), sdkerrors.Wrap(f) of
+// a definitely non-nil error, a registered Err* variable, a concrete value boxed into the interface).
+func DefinitelyNonNil(v ssa.Value, d int) bool {
+	if d > 4 {
+		return false
+	}
+	switch x := v.(type) {
+	case *ssa.Const:
+		return x.Value != nil
+	case *ssa.Call:
+		if sc := x.Call.StaticCallee(); sc != nil {
+			n := sc.Name()
+			if n == "Errorf" || n == "New" || n == "Error" || n == "Wrap" || n == "Wrapf" {
+				if (n == "Wrap" || n == "Wrapf") && len(x.Call.Args) > 0 {
+					return DefinitelyNonNil(x.Call.Args[0], d+1)
+				}
+				return true
+			}
+		}
+		if u, ok := x.Call.Value.(*ssa.UnOp); ok {
+			if g, ok := u.X.(*ssa.Global); ok && (g.Name() == "Wrap" || g.Name() == "Wrapf") && len(x.Call.Args) > 0 {
+				return DefinitelyNonNil(x.Call.Args[0], d+1)
+			}
+		}
+	case *ssa.UnOp:
+		if g, ok := x.X.(*ssa.Global); ok && strings.HasPrefix(g.Name(), "Err") {
+			return true
+		}
+	case *ssa.MakeInterface:
+		return true
+	case *ssa.ChangeInterface:
+		return DefinitelyNonNil(x.X, d+1)
+	}
+	return false
+}
